@@ -1,68 +1,129 @@
 """C05 — seqhash separates molecules, v1 form, rejections."""
 from common import *
 
+from seqfam import structured
+
 RULE = ("form: one Hash call judged against 'v1_' + tag + '_' + hex(BLAKE3(canonical representative)) with the representative computed "
-        "from the arg-min spec and the code-set complement; exhaustive over ACGT^<=L x 4 flag pairs, protein strings to length 2..3, every "
-        "single invalid letter; partition: Hash of EVERY word of length n over ACGT under each flag pair, partition by hash compared with the "
-        "partition by canonical representative; random longer inputs. non-trivial = accepted input of length >= 2; distinct by case text")
+        "from the arg-min spec and the independent code-set complement, or 'err' exactly when the input is not acceptable. partition: Hash of "
+        "EVERY word of length n over an alphabet under a flag pair; the partition by real hash is compared with the partition into molecules "
+        "computed by BRUTE FORCE (enumerated orbits: every rotation if circular, of the word and of its other strand if double-stranded) - same "
+        "hash => same molecule, and every orbit member has the word's hash. Exhaustive families: partition ACGT^n (n <= NP) x 4 flag pairs (DNA), "
+        "ACGTU^n and ACGTUZ^n under DNA (U under DNA: known finding C05-dna-u-strand, the judge FAILS there exactly in the known class), ACGTU^n "
+        "under RNA (mixed T/U spellings), IUPAC15^n, ACGZ^n, a 20-letter protein alphabet; form ACGT^<=LF x 4 flag pairs, every protein-alphabet "
+        "string to length LP, EVERY single ASCII code point 0..127 as a letter in first / middle / last position under each type (and under "
+        "circular / double-stranded flags), pairs of invalid letters, invalid letter + invalid type, non-ASCII letters including U+017F and U+0131 "
+        "(which Unicode upper-casing folds to S and I). thorough: NP=9, LF=6, LP=3; quick: NP=5, LF=4, LP=2. Then random accepted inputs to 1200 "
+        "letters (with U and Z under DNA), a few long ones (linear to 10^5, circular to 5000) and structured inputs (gen/seqfam.py: reverse-palindromes, near-palindromes, odd centre, periodic words). "
+        "non-trivial = accepted input of length >= 2; distinct by case text")
 EXHAUSTIVE = {"quick": False, "thorough": True}
 TRUSTED_BASE = ["collision-freeness of BLAKE3 is a hypothesis (Function.Injective blake) of the separation theorem, not an axiom",
-                "Base/Blake3.lean (Lean BLAKE3) is used by the judge and compared with the vendored Go BLAKE3 through the form cases"]
-ASSUMPTIONS = ["inputs are ASCII", "BLAKE3 has no collisions among the inputs explored (hypothesis of hash_inj)",
-               "hash_inj states the double-stranded case on the strand-closed alphabet (normalised letters among the 15 IUPAC codes: no U under DNA, no Z), "
-               "where 'equal up to strand' is an equivalence; hash_inj_general covers every accepted input with the conclusion "
-               "'some strand of one equals, up to rotation, some strand of the other'"]
-PARTIAL = []
+                "Base/Blake3.lean (Lean BLAKE3, 32-byte length proved: sum256_length) is used by the judge and compared with the vendored Go BLAKE3 "
+                "only through seqhash.Hash (the form cases); there is no separate digest op"]
+ASSUMPTIONS = ["BLAKE3 has no collisions among the inputs explored (hypothesis of hash_inj_partial)",
+               "'sequence' in the separation clause means the normalised sequence: upper-cased (C04's case clause) and, under type RNA, with U read "
+               "as T (the first statements of Hash identify the two spellings under RNA by design; Props/C05 rna_reads_u_as_t)",
+               "non-ASCII input is rejected by the first statement of Hash (modelled explicitly); on ASCII the model's upper-casing is Go's strings.ToUpper"]
+PARTIAL = ["separation clause: hash_inj at full strength is REFUTED on the model of the code (Props/C05 hash_inj_dna_u_witness, known finding "
+           "C05-dna-u-strand: U is accepted under type DNA and complements to A like T, so double-stranded DNA inputs differing only in U vs T "
+           "collide). Proved instead: hash_inj_partial / model_hash_inj_partial, the same statement under the hypothesis that excludes exactly "
+           "that class (double-stranded AND type DNA AND a U in the sequence); Z and all other accepted letters are covered; "
+           "hash_inj_general is the unconditional weaker statement. Form, hex length and the three rejection clauses are proved in full."]
 TIMEOUT_MS = 120000
 
 PROT = "ACDEFGHIKLMNPQRSTVWYUO*BXZ"
 FLAGS = [("true", "true"), ("true", "false"), ("false", "true"), ("false", "false")]
+NONASCII = ["\u017f", "\u0131", "\u00e9", "\u03a9", "\u0410", "\u0391", "\uff21", "\u00c5", "\u0421", "\u0422", "\u03a4", "\u00df",
+            "\u212a", "\u4e2d", "\U0001d400", "\u00a0", "\u200b", "\u0130", "\u01c5", "\ufb01"]
 
 def cases(seed, tier):
     r = rng(seed, "C05")
-    L, LP, NP = (4, 2, 5) if tier == "quick" else (6, 3, 9)
-    for w in words(ACGT, L, 0):
+    quick = tier == "quick"
+    LF, LP, NP = (4, 2, 5) if quick else (6, 3, 9)
+    for w in words(ACGT, LF, 0):
         for (c, d) in FLAGS:
             yield ["form", w, "DNA", c, d]
     for w in words(PROT, LP, 1):
         yield ["form", w, "PROTEIN", r.choice(["true", "false"]), "false"]
+    # --- partitions against brute-force orbits
     for n in range(1, NP + 1):
         for (c, d) in FLAGS:
             yield ["partition", ACGT, str(n), "DNA", c, d]
-    yield ["partition", "ACGU", "3", "RNA", "true", "true"]
+    NU, NZ, NI = (3, 2, 2) if quick else (5, 4, 3)
+    for (c, d) in FLAGS:
+        for n in range(1, NU + 1):
+            yield ["partition", "ACGTU", str(n), "DNA", c, d]      # ds: known finding C05-dna-u-strand
+            yield ["partition", "ACGTU", str(n), "RNA", c, d]      # mixed T/U spellings of RNA
+            yield ["partition", "ACGU", str(n), "RNA", c, d]
+        for n in range(1, NZ + 1):
+            yield ["partition", "ACGTUZ", str(n), "DNA", c, d]
+            yield ["partition", "ACGTZ", str(n), "DNA", c, d]      # Z alone collides with nothing
+            yield ["partition", "ACGUZ", str(n), "RNA", c, d]
+        for n in range(1, NI + 1):
+            yield ["partition", IUPAC15, str(n), "DNA", c, d]
+    yield ["partition", "ACGU", "3", "DNA", "false", "true"]
     yield ["partition", "ACDEFGHIKLMNPQRSTVWY", "2", "PROTEIN", "true", "false"]
-    # every single invalid letter, each type
-    for o in range(32, 127):
+    yield ["partition", "ACDEFGHIKLMNPQRSTVWY", "2", "PROTEIN", "false", "false"]
+    # --- rejections: every single ASCII code point as a letter, first / middle / last position, each type
+    for o in range(0, 128):
         ch = chr(o)
         for ty in ("DNA", "RNA", "PROTEIN"):
             yield ["form", "AC" + ch + "G", ty, "false", "false"]
-    # letters outside ASCII (homoglyphs of valid letters, accented and other scripts): must be rejected too.
-    # (U+017F and U+0131 are left out: Unicode upper-casing folds them to the ASCII letters S and I.)
-    for ch in ["\u00e9", "\u03a9", "\u0410", "\u0391", "\uff21", "\u00c5", "\u0421", "\u0422", "\u03a4", "\u00df", "\u212a", "\u4e2d", "\U0001d400", "\u00a0", "\u200b"]:
+            c, d = FLAGS[o % 4]
+            yield ["form", ch + "ACG", ty, c, "false" if ty == "PROTEIN" else d]
+            yield ["form", "ACG" + ch, ty, d, "false" if ty == "PROTEIN" else c]
+            yield ["form", ch, ty, c, "false"]
+    for _ in range(60 if quick else 600):        # two invalid letters; invalid letter and invalid type
+        a, b2 = chr(r.randrange(0, 128)), chr(r.randrange(0, 128))
+        w = list(randword(r, ACGT, r.randint(2, 9))); w[r.randrange(len(w))] = a; w.insert(r.randrange(len(w) + 1), b2)
+        c, d = r.choice(FLAGS)
+        yield ["form", "".join(w), r.choice(["DNA", "RNA", "PROTEIN", "XNA", "dna"]), c, d]
+    for ch in NONASCII:
         for ty in ("DNA", "RNA", "PROTEIN"):
             yield ["form", "AC" + ch + "G", ty, "false", "false"]
             yield ["form", ch, ty, "true", "false"]
-    for ty in ("dna", "", "Protein", "XNA"):
-        yield ["form", "ACGT", ty, "false", "false"]
-    for w in ("MKV", "ACGT"):
+            yield ["form", ch + "A", ty, "false", "true" if ty != "PROTEIN" else "false"]
+            yield ["form", "MK" + ch, ty, "true", "true" if ty != "PROTEIN" else "false"]
+    for ty in ("dna", "", "Protein", "XNA", "DNA ", "rna"):
+        for (c, d) in FLAGS:
+            yield ["form", "ACGT", ty, c, d]
+    for w in ("MKV", "ACGT", "mkv*", "", "*"):
         for c in ("true", "false"):
             yield ["form", w, "PROTEIN", c, "true"]
+            yield ["form", w, "PROTEIN", c, "false"]
+    # --- random accepted inputs (U and Z under DNA included) and structured inputs
     maxlen = 1200
-    n = 300 if tier == "quick" else 3000
+    n = 400 if quick else 4000
     for _ in range(n):
         ty = r.choice(["DNA", "DNA", "RNA", "PROTEIN"])
         k = loglen(r, 1, maxlen)
-        alpha = PROT if ty == "PROTEIN" else ("ACGTRYKMSWBDHVN" + ("U" if ty == "RNA" else ""))
+        alpha = PROT if ty == "PROTEIN" else ("ACGTRYKMSWBDHVN" + r.choice(["", "", "U", "Z", "UZ"]))
         c, d = r.choice(FLAGS)
         if ty == "PROTEIN": d = "false"
-        yield ["form", randcase(r, randword(r, alpha, k)), ty, c, d]
+        w = randword(r, alpha, k)
+        yield ["form", r.choice([w, w.lower(), randcase(r, w)]), ty, c, d]
+    # long inputs (several BLAKE3 chunks; any length-thresholded path): linear to 10^5, circular to 5000 (the judge's arg-min is quadratic)
+    for _ in range(12 if quick else 120):
+        ty = r.choice(["DNA", "RNA", "PROTEIN"])
+        alpha = PROT if ty == "PROTEIN" else "ACGTRYKMSWBDHVN"
+        yield ["form", randcase(r, randword(r, alpha, loglen(r, 1200, 20000 if quick else 100000))), ty, "false", "false" if ty == "PROTEIN" else r.choice(["true", "false"])]
+        if r.random() < 0.4:
+            yield ["form", randword(r, alpha, loglen(r, 1200, 5000)), ty, "true", "false" if ty == "PROTEIN" else r.choice(["true", "false"])]
+    for _ in range(200 if quick else 2000):
+        fam, w = structured(r, loglen(r, 3, maxlen), r.choice(["ACGT", "ACGT", "AT", "ACGTRYSWKMBDHVN"]))
+        ty = r.choice(["DNA", "DNA", "RNA"])
+        if ty == "RNA" and r.random() < 0.5: w = w.replace("T", "U")
+        if r.random() < 0.3: w = randcase(r, w)
+        yield ["form", w, ty, "false", "true"]
+        yield ["form", w, ty, "true", "true"]
+        if r.random() < 0.3: yield ["form", w, ty, "true", "false"]
 
 TECHNIQUE = "Lean 4 proof (injectivity of the hash model under an injective digest; v1 form; rejections); differential correspondence and exhaustive partition check"
 LEVEL_TEXT = ("Theorems (Props/C05): equal hashes imply equal type, topology, strandedness and the same molecule up to rotation/strand, for every "
-              "digest function that is injective (hypothesis, recorded); the value has the published v1 form with a 64-hex-digit digest of the "
+              "digest function that is injective (hypothesis, recorded) - PARTIAL: except double-stranded DNA containing U, where the clause is "
+              "false of the code (kernel-checked witness, known finding C05-dna-u-strand); the value has the published v1 form with a 64-hex-digit digest of the "
               "canonical representative; unknown types, foreign letters and double-stranded proteins give an error. Tie: correspondence of "
-              "seqhash.Hash with the model on all cases, and the partition-by-hash = partition-by-orbit check on every DNA word to length 9 "
-              "under all four flag pairs in the thorough tier.")
+              "seqhash.Hash with the model on all cases, and the partition-by-hash = partition-by-brute-force-orbit check on every DNA word to length 9 "
+              "under all four flag pairs in the thorough tier (plus alphabets with U, Z, ambiguity codes, RNA with mixed T/U).")
 LEVEL_NOTE = "Trusted: Lean kernel; harness + polymodel; BLAKE3 collision-freeness is a hypothesis; Lean BLAKE3 tested against the Go one; transferred to the Booth-loop model through C12 booth_least (model_hash_*)."
 
 HARNESS_BIN = "run-seq"
